@@ -593,13 +593,15 @@ class Glyph(BaseObject):
         self.postNotification(notification="Glyph.ContourWillBeAdded", data=dict(object=contour))
         if contour.glyph is None:
             identifiers = self._identifiers
-            if contour.identifier is not None:
-                assert contour.identifier not in identifiers
-                identifiers.add(contour.identifier)
-            for point in contour:
-                if point.identifier is not None:
-                    assert point.identifier not in identifiers
-                    identifiers.add(point.identifier)
+            # check everything before registering anything, so that
+            # a rejected contour leaves the identifiers untouched
+            incoming = set()
+            for identifier in [contour.identifier] + [point.identifier for point in contour]:
+                if identifier is not None:
+                    assert identifier not in identifiers
+                    assert identifier not in incoming
+                    incoming.add(identifier)
+            identifiers.update(incoming)
             contour.glyph = self
             contour.beginSelfNotificationObservation()
         self.beginSelfContourNotificationObservation(contour)
